@@ -19,6 +19,7 @@ Base PDUs of the fault sweeps are fixed (not seed dependent); VERIF_SEED only ad
 """
 from mc import env  # noqa: F401  (must be first)
 from mc import par, spaces
+from mc.hist import observe
 from mc.report import Report, Acc, exc_sig
 from mc.oracle import gf2
 
@@ -244,6 +245,12 @@ def w_encoded(task):
                 acc.violation(f"{name}:library_encoded_pdu_reports_check_failed", {**case, "bits": s},
                               "a PDU serialised by the library parses back with its 'ok' indicator False")
                 out = "indicator_false"
+            else:
+                # the verdict is a fact about the received bits: it does not change when the object is looked at (repr, str, ==, hash)
+                observe(back, light=True)
+                if not p.indicator(back):
+                    acc.violation(f"{name}:indicator_changes_after_the_pdu_was_looked_at", {**case, "bits": s})
+                    out = "indicator_false"
             got = "".join(s[i] for i in p.crc_pos)
             want = p.expect(s)
             if got != want:
